@@ -88,25 +88,7 @@ def objs(hv, odb):
     return hv.get("HashFileDB.objs", odb)
 
 
-def O(path, oid):
-    """path of an object, as an abstract function that is injective in the id (the concrete layout and its
-    injectivity for ids of length >= 2 are the subject of C01's oid_to_path obligations)"""
-    f = specfn.ufn("O_path", z3.StringSort(), z3.StringSort(), z3.StringSort())
-    return SV(f(path.t, oid.t), TStr)
-
-
-def O_injective():
-    p, a, b = z3.String("p!O"), z3.String("a!O"), z3.String("b!O")
-    f = specfn.ufn("O_path", z3.StringSort(), z3.StringSort(), z3.StringSort())
-    return SV(z3.ForAll([p, a, b], z3.Implies(f(p, a) == f(p, b), a == b), patterns=[z3.MultiPattern(f(p, a), f(p, b))]), TBool)
-
-
-def O_def():
-    """definition of the abstract path function: the 2-character fan-out layout"""
-    from specs.heap import o2p as layout
-
-    p, a = SV(z3.String("p!Od"), TStr), SV(z3.String("a!Od"), TStr)
-    return SV(z3.ForAll([p.t, a.t], O(p, a).t == layout(p, a).t, patterns=[O(p, a).t]), TBool)
+from specs.heap import O, O_def, O_injective  # noqa: E402
 
 
 contract(
@@ -118,12 +100,6 @@ contract(
     props=["C01", "C06"],
     doc="local stores use the same <path>/<oid[:2]>/<oid[2:]> layout (os.sep taken as '/')",
 )
-
-
-# the assumed layout contract additionally names the abstract path function
-_o2p = REG.get("ext:dvc_objects.db.ObjectDB.oid_to_path")
-_o2p_ens = _o2p.ensures
-_o2p.ensures = lambda c: And(_o2p_ens(c), c.result == O(c.h.get("HashFileDB.path", c.self), c.oid))
 
 
 # ---------------- assumed store / filesystem operations ----------------
